@@ -26,7 +26,7 @@ C11_SHAPES_SLOW = ['c11_prec_not_eq', 'c11_prec_not_not_eq']
 C11_GATING = ['c11_gating_' + d + '_bounded' for d in ('define', 'undef', 'include', 'pragma', 'unknown', 'ifdef', 'if', 'elif', 'else', 'endif')]
 
 ALL_V_UNITS = ['cond_chain', 'cond_file', 'cond_parser', 'bindings', 'lexer_digits', 'lexer_float', 'token_stream', 'source_manager', 'layout',
-               'hlsl_bindings', 'hlsl_analyse', 'msl_analyse', 'hlsl_expr', 'hlsl_exprs', 'hlsl_literal', 'msl_literal', 'evaluator', 'fmt_paren', 'unlex', 'parser_annotations', 'compile_params', 'pp_trim', 'pipelines', 'compile_pipeline']
+               'hlsl_bindings', 'hlsl_analyse', 'msl_analyse', 'hlsl_expr', 'hlsl_exprs', 'hlsl_literal', 'msl_literal', 'evaluator', 'fmt_paren', 'unlex', 'parser_annotations', 'compile_params', 'pp_trim', 'pipelines', 'compile_pipeline', 'casting']
 
 PROPS = {
     'C01': {
